@@ -335,6 +335,9 @@ func c07Truncate(s *c07Store, m *c07Ref, step string) {
 	}
 	zzsym.Assume(low <= m.leo+1)
 	from := low + uint64(zzsym.Choice(step+".from", int(m.leo+2-low)))
+	// known finding C07-F2 (isolated in Harness_C07_StoreTruncateAfterTrim): a truncation that removes
+	// rows after a prefix trim leaves the retention state's RetainedMaxSeq above the new log end
+	zzsym.Assume(!m.trimmed || from > m.leo)
 	err := s.log.TruncateFrom(context.Background(), from)
 	zzsym.Reach("store-truncate")
 	zzsym.Assert(err == nil, "store: TruncateFrom fails")
@@ -501,18 +504,30 @@ func Harness_C07_StoreHistorySeeded() {
 func Harness_C07_StoreTrimTruncateReopen() {
 	s, m := c07FreshStore()
 	c07Seed(s, m)
-	alphabet := [5]int{c07OpTruncate, c07OpTrim, c07OpCheckpoint, c07OpReopen, c07OpAppend1}
 	k := c07Ops(3, 4)
 	for i := 0; i < k; i++ {
 		step := "s" + string(rune('0'+i))
-		c07Step(s, m, step, alphabet[zzsym.Choice(step+".op", len(alphabet))])
+		switch zzsym.Choice(step+".op", 5) {
+		case 0:
+			c07Truncate(s, m, step)
+		case 1:
+			c07Trim(s, m, step)
+		case 2:
+			c07StoreCheckpoint(s, m, step)
+		case 3:
+			s.reopen()
+			zzsym.Reach("store-reopen")
+		default:
+			c07Append(s, m, step, 1)
+		}
+		c07CheckAgainst(s, m)
 	}
 	c07Finish(s, m)
 }
 
 // Harness_C07_StoreSymbolicPayload: byte identity for ALL payload byte values on one fixed history
-// that exercises every operation: append 2, follower apply 1 (+checkpoint HW=3), append 1, trim
-// through 1, truncate from 4, reopen; the reference check runs after every step.
+// that exercises every operation: append 2, follower apply 1 (+checkpoint HW=3), append 1, truncate
+// from 4, trim through 1, reopen; the reference check runs after every step.
 func Harness_C07_StoreSymbolicPayload() {
 	c07SymbolicPayload = true
 	defer func() { c07SymbolicPayload = false }()
@@ -544,13 +559,37 @@ func Harness_C07_StoreSymbolicPayload() {
 	d.seq = 4
 	m.rows, m.leo = append(m.rows, d), 4
 	c07CheckAgainst(s, m)
+	// (truncate before trim: the other order is known finding C07-F2)
+	zzsym.Assert(s.log.TruncateFrom(ctx, 4) == nil, "store: symbolic-payload truncate failed")
+	m.rows, m.leo = m.rows[:3], 3
+	c07CheckAgainst(s, m)
 	_, err = s.log.TrimPrefixThrough(ctx, 1)
 	zzsym.Assert(err == nil, "store: symbolic-payload trim failed")
 	m.rows, m.trimmed, m.physical = m.rows[1:], true, 1
 	c07CheckAgainst(s, m)
-	zzsym.Assert(s.log.TruncateFrom(ctx, 4) == nil, "store: symbolic-payload truncate failed")
-	m.rows, m.leo = m.rows[:2], 3
-	c07CheckAgainst(s, m)
 	zzsym.Reach("store-symbolic-payload")
 	c07Finish(s, m)
+}
+
+// Harness_C07_StoreTruncateAfterTrim: known finding C07-F2, isolated. Seeded log (rows 1..3, HW=2),
+// trim through 1, truncate from 3, reopen: ChannelLog.TruncateFrom does not clamp the retention
+// state's RetainedMaxSeq (3, stored by the trim), so recoverLEO after reopen reports LEO 3 although
+// row 3 was truncated and LEO was 2 before the close (the compat ChannelStore.truncateLocked does
+// clamp it: retentionStateAfterTruncate).
+func Harness_C07_StoreTruncateAfterTrim() {
+	s, m := c07FreshStore()
+	c07Seed(s, m)
+	ctx := context.Background()
+	_, err := s.log.TrimPrefixThrough(ctx, 1)
+	zzsym.Assert(err == nil, "store: trim failed")
+	m.rows, m.trimmed, m.physical = m.rows[1:], true, 1
+	c07CheckAgainst(s, m)
+	zzsym.Assert(s.log.TruncateFrom(ctx, 3) == nil, "store: truncate failed")
+	m.rows, m.leo = m.rows[:1], 2
+	c07CheckAgainst(s, m)
+	s.reopen()
+	zzsym.Reach("store-truncate-after-trim-reopened")
+	leo, lerr := s.log.LEO(ctx)
+	zzsym.AssertKnown(lerr == nil && leo == m.leo, "store: the log end moves forward over a truncated suffix at reopen", "C07-F2", true)
+	zzsym.Observe("f2", leo)
 }
